@@ -75,7 +75,13 @@ impl Tm {
     fn to_t(&self, n: u8) -> T {
         match self {
             Tm::V(i) => T::Var(vi(*i, n)),
-            Tm::A(k) => term::atom(ATOMS[*k as usize % ATOMS.len()]),
+            // constants 3 and 4 are strings (lists of characters stored as packed strings): binding an
+            // attributed variable to one goes through the partial-string instructions
+            // (given in list form so that the model's structural comparisons see the same term; the reader
+            // stores a list of characters as a packed string all the same)
+            Tm::A(k) if *k % 5 == 3 => T::Str("hi".into()).norm(),
+            Tm::A(k) if *k % 5 == 4 => T::Str("hello".into()).norm(),
+            Tm::A(k) => term::atom(ATOMS[(*k % 5) as usize % ATOMS.len()]),
             Tm::F(a) => term::cmp("f", vec![a.to_t(n)]),
             Tm::G(a, b) => term::cmp("g", vec![a.to_t(n), b.to_t(n)]),
         }
@@ -114,7 +120,17 @@ fn act_t(k: usize, a: &Act, n: u8) -> T {
         Act::Dif(x, y) => term::cmp("dif", vec![x.to_t(n), y.to_t(n)]),
         Act::Freeze(v, g) => term::cmp("freeze", vec![T::Var(vi(*v, n)), goal_t(k, g, n)]),
         Act::When(c, g) => term::cmp("when", vec![c.to_t(n), goal_t(k, g, n)]),
-        Act::Unify(v, t) => term::cmp("=", vec![T::Var(vi(*v, n)), t.to_t(n)]),
+        Act::Unify(v, t) => {
+            let tt = t.to_t(n);
+            // every other unification with a ground term is done by head unification against an
+            // asserted fact (for a string that is the get_partial_string instruction), which must wake
+            // constraints exactly like =/2
+            if tt.is_ground() && k % 2 == 1 {
+                term::cmp("c26_hu", vec![T::Var(vi(*v, n)), tt])
+            } else {
+                term::cmp("=", vec![T::Var(vi(*v, n)), tt])
+            }
+        }
     }
 }
 
@@ -207,7 +223,7 @@ fn run_model(c: &Case, n: u8, order: &[usize]) -> Result<(Vec<Vec<usize>>, Model
 // generators
 
 fn tm_strategy() -> BoxedStrategy<Tm> {
-    let leaf = prop_oneof![5 => (0u8..5).prop_map(Tm::V), 4 => (0u8..3).prop_map(Tm::A)];
+    let leaf = prop_oneof![5 => (0u8..5).prop_map(Tm::V), 4 => (0u8..5).prop_map(Tm::A)];
     leaf.prop_recursive(2, 5, 2, |inner| {
         prop_oneof![
             2 => inner.clone().prop_map(|t| Tm::F(Box::new(t))),
@@ -218,7 +234,7 @@ fn tm_strategy() -> BoxedStrategy<Tm> {
 }
 
 fn ground_tm() -> BoxedStrategy<Tm> {
-    prop_oneof![4 => (0u8..3).prop_map(Tm::A), 1 => (0u8..3).prop_map(|k| Tm::F(Box::new(Tm::A(k))))].boxed()
+    prop_oneof![4 => (0u8..5).prop_map(Tm::A), 1 => (0u8..5).prop_map(|k| Tm::F(Box::new(Tm::A(k))))].boxed()
 }
 
 fn wc_strategy() -> BoxedStrategy<Wc> {
